@@ -98,6 +98,36 @@ def run(rep):
         sfound, snp = analyse(corp.m, scripted, si, sm, ssites, rng)
         found += [(scripted[ci], oi, why, pr) for ci, oi, why, pr in sfound]
         npairs += snp
+        # scripted (2): the USER's failing call - to_string(), which goes through XMLElement._final_checks (the history operation f asks the
+        # container directly) - between an add and the removal of that child; the implementation against itself, with and without the failing call
+        from . import impl as _impl
+        sa, sb, skey = [], [], []
+        for t in g['types']:
+            for a in rx.alphabet(g['templates'][t]):
+                sa.append({'multi': [t], 'type': t, 'ops': [[0, 'a', a], [0, 's', 0], [0, 'r', 0], [0, 's', 0]]})
+                sb.append({'multi': [t], 'type': t, 'ops': [[0, 'a', a], [0, 'r', 0], [0, 's', 0]]})
+        pick = list(range(len(sa)))
+        rng.shuffle(pick)
+        pick = pick[:700 if quick else 100000]
+        ra_ = _impl.run_cases([sa[i] for i in pick])
+        rb_ = _impl.run_cases([sb[i] for i in pick])
+        n_s = 0
+        seen_s = set()
+        for i, xa, xb in zip(pick, ra_, rb_):
+            if isinstance(xa, dict) or isinstance(xb, dict) or len(xa) != 4 or len(xb) != 3:
+                continue
+            if hist.norm_st(xa[1]['st']) == 'ok':
+                continue                                   # to_string() did not fail: nothing to compare
+            n_s += 1
+            va, vb = (xa[2]['ord'], xa[2]['uno'], hist.norm_st(xa[3]['st'])), (xb[1]['ord'], xb[1]['uno'], hist.norm_st(xb[2]['st']))
+            va = (len(va[0]) if isinstance(va[0], list) else va[0], len(va[1]), va[2])
+            vb = (len(vb[0]) if isinstance(vb[0], list) else vb[0], len(vb[1]), vb[2])
+            if va != vb and sa[i]['type'] not in seen_s:
+                seen_s.add(sa[i]['type'])
+                key = 'C10:to_string:' + sa[i]['type']
+                rep.finding_or_violation(key, '%s: after a FAILED to_string(%s) the removal of the child leaves (ordered, insertion, next to_string) = %s; without the failed call %s' % (
+                    sa[i]['type'], '', va, vb), {'type': sa[i]['type'], 'ops': sa[i]['ops'], 'without_the_failed_call': sb[i]['ops'], 'observed': va, 'expected': vb})
+        rep.coverage['failed_to_string_then_remove'] = n_s
         seen = set()
         for c, oi, why, predicted in found:
             key = 'C10:' + matcher.cause_key(c['type'], c['ops'][:oi + 1])
